@@ -12,6 +12,7 @@ import (
 	"runtime"
 	"strings"
 	"sync"
+	"sync/atomic"
 	"testing"
 
 	schema "github.com/jsightapi/jsight-schema-core"
@@ -36,6 +37,21 @@ type Input struct {
 	Kind    string       `json:"kind"` // project enum regex doc
 	Project *sut.Project `json:"project,omitempty"`
 	Text    string       `json:"text,omitempty"`
+	// Fresh: the root text is a template; every use replaces each "#N#" by a number never used before in
+	// this process, so that whatever the library remembers per text (caches) meets a new text every time
+	Fresh bool `json:"fresh,omitempty"`
+}
+
+var freshCounter int64
+
+func instantiate(in Input) Input {
+	if !in.Fresh {
+		return in
+	}
+	n := atomic.AddInt64(&freshCounter, 1)
+	p := *in.Project
+	p.Root = strings.ReplaceAll(p.Root, "#N#", fmt.Sprint(n))
+	return Input{Kind: in.Kind, Project: &p}
 }
 
 var ops = map[string][]string{
@@ -87,6 +103,7 @@ func perform(o *object, op string) (out string) {
 		return fmt.Sprintf("%d,%s", n, errText(err))
 	case "project:example":
 		b, err := o.s.Example()
+		runtime.Gosched() // the result is held while others work
 		return fmt.Sprintf("%s,%s", b, errText(err))
 	case "project:ast":
 		a, err := o.s.GetAST()
@@ -100,6 +117,7 @@ func perform(o *object, op string) (out string) {
 			return "not accepted"
 		}
 		b, err := openapi.NewSchemaObject(o.s).MarshalJSON()
+		runtime.Gosched()
 		return fmt.Sprintf("%s,%v", b, err)
 	case "enum:check":
 		return errText(o.e.Check())
@@ -159,7 +177,16 @@ var (
 	inputsOnce sync.Once
 	inputs     []Input
 	sequential []map[string]string
+	specials   []int // indices of the inputs built around one shared mechanism
 )
+
+func deepLines(n int) string {
+	var b strings.Builder
+	for i := 0; i < n; i++ {
+		fmt.Fprintf(&b, "  \"line%03d\": [%d, \"%s\"],\n", i, i, strings.Repeat("z", i%17))
+	}
+	return b.String()
+}
 
 // corpusInputs: a fixed corpus of accepted and rejected inputs with their sequential outcomes
 func corpusInputs() ([]Input, []map[string]string) {
@@ -200,6 +227,50 @@ func corpusInputs() ([]Input, []map[string]string) {
 				n++
 			}
 		}
+		// inputs that meet on one mechanism (drawn together with raised probability, see genAssignment):
+		// examples of 3 - 30 KB (pooled buffers of every size class)
+		special := func(in Input) { specials = append(specials, len(inputs)); inputs = append(inputs, in) }
+		for _, n := range []int{300, 450, 700, 1200, 3000} {
+			var b strings.Builder
+			b.WriteString("[")
+			for i := 0; i < n; i++ {
+				if i > 0 {
+					b.WriteString(", ")
+				}
+				fmt.Fprintf(&b, "%d", 1000000000+i)
+			}
+			b.WriteString("]")
+			special(Input{Kind: "project", Project: &sut.Project{Root: b.String()}})
+			var o strings.Builder
+			o.WriteString("{")
+			for i := 0; i < n/3; i++ {
+				if i > 0 {
+					o.WriteString(", ")
+				}
+				fmt.Fprintf(&o, "\"key%04d\": \"value %d of %d\"", i, i, n)
+			}
+			o.WriteString("}")
+			special(Input{Kind: "project", Project: &sut.Project{Root: o.String()}})
+		}
+		// inheritance (the compiler rewrites the node tree in place) with further types named only by the parents
+		for i := 0; i < 6; i++ {
+			special(Input{Kind: "project", Project: &sut.Project{
+				Root: fmt.Sprintf("{ // {allOf: \"@base%d\"}\n  \"own\": @own,\n  \"n\": %d\n}", i, i),
+				Types: []sut.Named{{Name: fmt.Sprintf("@base%d", i), Text: fmt.Sprintf("{ // {allOf: \"@deep\"}\n  \"b%d\": @inner\n}", i)}, {Name: "@deep", Text: "{\n  \"d\": [@inner]\n}"},
+					{Name: "@inner", Text: "\"in\" // {minLength: 1}"}, {Name: "@own", Text: "{\n  @inner: 1\n}"}}}})
+		}
+		// many different regex rules (one compiled expression per schema)
+		for i := 0; i < 16; i++ {
+			special(Input{Kind: "project", Project: &sut.Project{Root: fmt.Sprintf("{\n  \"a\": \"ab%d\", // {regex: \"^ab%d$\"}\n  \"b\": \"x\" // {regex: \"^[x-z]{1,%d}\"}\n}", i, i, i+1)}})
+		}
+		// regex rules and strings never seen before (a fresh text at every use)
+		for i := 0; i < 4; i++ {
+			special(Input{Kind: "project", Fresh: true, Project: &sut.Project{Root: fmt.Sprintf("{\n  \"id\": \"g#N#i%d\", // {regex: \"^g#N#i%d$\"}\n  \"e\": \"e#N#\" // {enum: [\"e#N#\", \"f#N#\"]}\n}", i, i)}})
+		}
+		// rejected with a position deep inside a longer text (line and column are computed from the shared text)
+		for i := 0; i < 6; i++ {
+			special(Input{Kind: "project", Project: &sut.Project{Root: "{\n" + strings.Repeat("  \"filler\": [1, 2, 3],\n", 0) + strings.Repeat(fmt.Sprintf("  \"k%d\": \"v\",\n", i), 1) + deepLines(40+i*25) + fmt.Sprintf("  \"bad%d\": 1 // {min: 2}\n}", i)}})
+		}
 		for _, s := range []string{"[1, 2, \"three\"]", "[\n \"a\", // c\n \"b\"\n]", "[1, 1]", "[", "[\"a.b\", \"1.5\", 1.5]"} {
 			inputs = append(inputs, Input{Kind: "enum", Text: s})
 		}
@@ -211,8 +282,10 @@ func corpusInputs() ([]Input, []map[string]string) {
 		}
 		for _, in := range inputs {
 			m := map[string]string{}
-			for _, op := range ops[in.Kind] {
-				m[op] = perform(build(in), op)
+			if !in.Fresh { // (a fresh input is compared with a second object of the same text, made afterwards)
+				for _, op := range ops[in.Kind] {
+					m[op] = perform(build(in), op)
+				}
 			}
 			sequential = append(sequential, m)
 		}
@@ -264,8 +337,11 @@ func oracle(a Assignment) *ev.Verdict {
 	type result struct {
 		g, input int
 		op, got  string
+		fresh    *Input // the instantiated input when the corpus entry is a template
 	}
-	var mu sync.Mutex
+	// every goroutine writes its results to a slice of its own: a lock shared by the workers would order
+	// their library calls (happens-before through the lock) and hide races from the detector
+	perG := make([][]result, len(a.Goroutines))
 	var results []result
 	var wg sync.WaitGroup
 	start := make(chan struct{})
@@ -274,7 +350,7 @@ func oracle(a Assignment) *ev.Verdict {
 		for _, g := range a.Goroutines {
 			for _, w := range g {
 				if w.Input < len(ins) && shared[w.Input] == nil {
-					shared[w.Input] = build(ins[w.Input])
+					shared[w.Input] = build(instantiate(ins[w.Input]))
 				}
 			}
 		}
@@ -289,27 +365,39 @@ func oracle(a Assignment) *ev.Verdict {
 					continue
 				}
 				var o *object
+				var fresh *Input
 				if a.Shared {
 					o = shared[w.Input]
+					if ins[w.Input].Fresh {
+						fresh = &o.in
+					}
 				} else {
-					o = build(ins[w.Input])
+					in := instantiate(ins[w.Input])
+					if ins[w.Input].Fresh {
+						fresh = &in
+					}
+					o = build(in)
 				}
 				for k, op := range w.Ops {
 					if k < len(w.Yield) && w.Yield[k] {
 						runtime.Gosched()
 					}
 					got := perform(o, op)
-					mu.Lock()
-					results = append(results, result{gi, w.Input, op, got})
-					mu.Unlock()
+					perG[gi] = append(perG[gi], result{gi, w.Input, op, got, fresh})
 				}
 			}
 		}(gi, g)
 	}
 	close(start)
 	wg.Wait()
+	for _, rs := range perG {
+		results = append(results, rs...)
+	}
 	for _, r := range results {
 		want := seq[r.input][r.op]
+		if r.fresh != nil {
+			want = perform(build(*r.fresh), r.op) // sequentially, on a second object with the same text
+		}
 		if r.got != want {
 			mode := "own-objects"
 			if a.Shared {
@@ -337,6 +425,13 @@ func genAssignment(t *rapid.T) Assignment {
 	g := rapid.SampledFrom([]int{2, 4, 8, 32}).Draw(t, "goroutines")
 	// a small set of inputs so that goroutines meet on the same pooled operations / shared objects
 	hot := rapid.SliceOfN(rapid.IntRange(0, len(ins)-1), 1, 4).Draw(t, "hot")
+	if rapid.IntRange(0, 2).Draw(t, "special") > 0 {
+		// goroutines meeting on big examples, inheritance, regex rules, positioned rejections
+		hot = nil
+		for _, k := range rapid.SliceOfN(rapid.IntRange(0, len(specials)-1), 2, 6).Draw(t, "hotspecial") {
+			hot = append(hot, specials[k])
+		}
+	}
 	for i := 0; i < g; i++ {
 		var ws []Work
 		n := rapid.IntRange(1, 6).Draw(t, "works")
